@@ -222,3 +222,8 @@ fn c07_abandoned_fd_result() {
 }
 
 }
+
+/// Accessor for C13 (`state` is private to `io_uring::fd`).
+pub(crate) fn to_direct_res_addr(f: &super::ToDirect<'_>) -> usize {
+    ops::resources_addr(&f.state)
+}
